@@ -81,3 +81,31 @@ def run(f_on, f_off, nonce, f_allfeat=None, positive=None):
             out['errors'].append('positive controls: %s' % e)
     out['evidence'] = ev
     return out
+
+
+def thresholds(f_on, nonce):
+    """Integer constants (>= 2) that non-test code of the generator, the strategies or the runtime
+    compares a value against in a branch condition (not an overflow / bounds assertion)."""
+    crates = mirlib.load_crates(f_on, nonce)
+    out = set()
+    for c in crates:
+        if c.name not in ('truc', 'truc_runtime'):
+            continue
+        for b in c.bodies:
+            mod = b.module or ''
+            if c.name == 'truc' and not (mod.startswith('truc::generator') or mod.startswith('truc::record::definition')):
+                continue
+            asserted = set()
+            for blk in b.blocks:
+                t = blk['term']
+                if t['k'] == 'assert' and mirlib.op_place(t['cond']):
+                    asserted.add(mirlib.op_place(t['cond'])['l'])
+            for bb, si, st in b.statements():
+                if st['k'] == 'assign' and st['rv']['k'] == 'bin' and st['rv']['op'] in ('Lt', 'Le', 'Gt', 'Ge', 'Eq', 'Ne'):
+                    if st['place']['l'] in asserted or (st.get('span') or {}).get('exp'):
+                        continue
+                    for side in ('l', 'r'):
+                        iv = mirlib.op_int(st['rv'][side])
+                        if iv is not None and 2 <= iv <= 300:
+                            out.add(iv)
+    return sorted(out)
